@@ -52,4 +52,23 @@ Proof. intros Hk Hn. fcbv. list_eq; field; side. Qed.
 
 Lemma quat_identity : gen_quat_matrix 1 1 0 0 0 = eye (K:=K) 3.
 Proof. fcbv. list_eq; field; side. Qed.
+
+(* rotation_matrix_to_quaternion: in every branch of its case analysis the four numerators are
+   4 * pivot * (w, x, y, z) and the square-root argument is 4 * pivot^2 (eps = 0), where (w,x,y,z) is a unit
+   quaternion of the input rotation and pivot its component selected by the branch -- so the result
+   numerators / (2 sqrt(arg)) is +-(w, x, y, z), the same rotation (quat_sign) *)
+Definition m2q_spec (p w x y z : K) : list K := [(1+1)*(1+1) * p * w; (1+1)*(1+1) * p * x; (1+1)*(1+1) * p * y; (1+1)*(1+1) * p * z].
+
+Lemma m2q_branches_sound (w x y z : K) :
+  w * w + x * x + y * y + z * z = 1 ->
+  let M := unit_quat_matrix w x y z in
+  gen_m2q_num_0 0 M = m2q_spec w w x y z /\ gen_m2q_arg_0 0 M = (1+1)*(1+1) * w * w /\
+  gen_m2q_num_1 0 M = m2q_spec x w x y z /\ gen_m2q_arg_1 0 M = (1+1)*(1+1) * x * x /\
+  gen_m2q_num_2 0 M = m2q_spec y w x y z /\ gen_m2q_arg_2 0 M = (1+1)*(1+1) * y * y /\
+  gen_m2q_num_3 0 M = m2q_spec z w x y z /\ gen_m2q_arg_3 0 M = (1+1)*(1+1) * z * z /\
+  (gen_m2q_pivot_0, gen_m2q_pivot_1, gen_m2q_pivot_2, gen_m2q_pivot_3) = (0, 1, 2, 3)%nat.
+Proof.
+  intros H M. assert (Hw : w * w = 1 - x * x - y * y - z * z) by (rewrite <- H; ring).
+  repeat split; fcbv; list_eq; ring [Hw].
+Qed.
 End Proofs.
